@@ -159,11 +159,15 @@ def _arr_grid(tier):
                         if tier == 'quick' and ny == 2 and (m == 3 or len(mix) > 2):
                             continue
                         out.append({'mix': mix, 'ranks': ranks, 'd': d, 'm': m, 'ny': ny, 'repeats': repeats})
+    # warm start from a LIST of (different) coefficient trains, one per output row
+    for (mix, ranks) in (([['id', 'mono2'], ['const', 'id']], [1, 1, 1]), ([['id', 'mono2'], ['const', 'id']], [1, 2, 1]),
+                         ([['const', 'id'], ['id', 'sin'], ['const', 'id']], [1, 1, 2, 1])):
+        out.append({'mix': mix, 'ranks': ranks, 'd': 1, 'm': 2, 'ny': 2, 'repeats': 1, 'listguess': True})
     return out
 
 
 @scenario('C16', 'arr', _arr_grid)
-def arr(ctx, mix, ranks, d, m, ny, repeats):
+def arr(ctx, mix, ranks, d, m, ny, repeats, listguess=False):
     """ARR: micro_matrix^T vec(core_i) == predictions of the current coefficient train on every snapshot; rhs; schedule; ranks; guess unchanged"""
     reg, tdt = ctx.R.regression, ctx.R.transform
     TT = ctx.R.TT
@@ -189,7 +193,11 @@ def arr(ctx, mix, ranks, d, m, ny, repeats):
         return orig(i, micro_matrix, rhs, solution, rcond, direction)
     g['__arr_update_core'] = wrapped
     try:
-        sol = reg.arr(x, y, phi, guess, repeats=repeats, rcond=1e-2, progress=False)
+        if listguess:
+            glist = [TT(mk_cores(ctx, 'g%d' % k, sg, False)) for k in range(ny)]
+            sol = reg.arr(x, y, phi, glist, repeats=repeats, rcond=1e-2, progress=False)
+        else:
+            sol = reg.arr(x, y, phi, guess, repeats=repeats, rcond=1e-2, progress=False)
     finally:
         g['__arr_update_core'] = orig
     ctx.check('one coefficient train per output row', isinstance(sol, list) and len(sol) == ny)
@@ -220,6 +228,7 @@ def arr(ctx, mix, ranks, d, m, ny, repeats):
         ctx.check('arr: dims of the guess', t.row_dims == n)
     ctx.eq('arr: the initial guess is not modified', guess.full(), gd)
     ctx.check('arr: results are new objects', all(t is not guess for t in sol))
+    # (a list-valued guess is the undocumented warm-start form: its trains are continued in place -- not part of the "guess unchanged" claim)
 
 
 @scenario('C16', 'mandy_threshold', lambda tier: [{'variant': v, 'd': d, 'm': m} for v in ('cm', 'fm') for d in (1, 2) for m in (2, 3)])
